@@ -5,7 +5,7 @@
    evaluated on the implementation's own observations. *)
 From Coq Require Import List NArith ZArith Bool String Ascii Strings.Byte.
 From FwdLib Require Import Bytes.
-From G03 Require Import Tables Tunnel Abstract Weak ReplyReader Deadlines.
+From G03 Require Import Tables Tunnel Abstract Weak ReplyReader Switchover Deadlines.
 Import ListNotations.
 Open Scope N_scope.
 
@@ -153,6 +153,8 @@ Record ccase := {
   cc_weak : bool;            (* the dialled connection carries TLS: its plaintext operations are hidden *)
   cc_cipher_wn : N;          (* number of writes (TLS records or more) the proxy issued on it in the tunnel phase *)
   cc_cipher_w : N; cc_cipher_r : N;   (* bytes of ciphertext the proxy wrote to / read from it over the whole connection *)
+  cc_head : list N;          (* the request head the client sent ([] = not compared: served through net/http's own reader) *)
+  cc_lcsched : list nat;     (* sizes returned by the proxy's Reads on the client connection up to the reply *)
   cc_early : list N; cc_skip : list N; cc_kept : list N;
   cc_trace : option (list label); cc_obs : obs
 }.
@@ -229,8 +231,17 @@ Definition cipher_ok (c : ccase) (s : state) (upw : N) : bool :=
                      && (len (d_rcv (s_tc s)) + len (d_buf (s_tc s)) <=? cc_cipher_r c)
                      && (upw <=? cc_cipher_wn c)).   (* every plaintext write is at least one write of records *)
 
+(* the early bytes are what the model of the proxy's reader on the client connection (Switchover.v)
+   holds after parsing the head from the client's stream with the observed read sizes *)
+Definition early_ok (c : ccase) : bool :=
+  is_nil (cc_head c) ||
+  match predicted_early (N.to_nat client_reader_size) (cc_head c) (o_sent (o_ct (cc_obs c))) (cc_lcsched c) with
+  | Some e => str_eqb e (cc_early c)
+  | None => false
+  end.
+
 Definition cmodel_ok (c : ccase) : bool :=
-  cc_wellformed c && skip_ok (cc_mode c) (cc_fr c) (len (o_sent (o_tc (cc_obs c)))) (len (cc_skip c)) &&
+  cc_wellformed c && early_ok c && skip_ok (cc_mode c) (cc_fr c) (len (o_sent (o_tc (cc_obs c)))) (len (cc_skip c)) &&
   match cc_trace c with
   | None => false
   | Some tr =>
